@@ -139,9 +139,11 @@ Proof.
   intros w i f keys b locs; induction locs as [|l rest IH]; intros rb;
     cbn [file_loop].
   - cbn. tauto.
-  - destruct (verify w (mk_rb i f keys b (resolve_asis w l))) eqn:V1.
+  - destruct (verify w (mk_rb i f keys b
+                              (resolve_asis w (kclass (b_kind b)) l))) eqn:V1.
     + cbn [fst In]. intros [<-|[]]. split; [eexists; reflexivity | exact V1].
-    + destruct (verify w (mk_rb i f keys b (resolve_rel w l))) eqn:V2.
+    + destruct (verify w (mk_rb i f keys b
+                                (resolve_rel w (kclass (b_kind b)) l))) eqn:V2.
       * cbn [fst In]. intros [<-|[]].
         split; [eexists; reflexivity | exact V2].
       * destruct (file_loop w i f keys b rest) as [r p] eqn:E.
@@ -1004,8 +1006,8 @@ Qed.
    (reading them raises KeyError).  Root served over HTTP with identifier
    "aa", one http basin whose file has identifier "b" and feature 1. *)
 Definition w_refute : world :=
-  [mkFile (Some [97; 97]) [0] [] [mkBasin 0 KHttp 0 [Here 1%nat] None];
-   mkFile (Some [98]) [1] [] []].
+  [mkF (Some [97; 97]) [0] [] [mkBasin 0 KHttp 0 [Here 1%nat] None];
+   mkF (Some [98]) [1] [] []].
 
 Lemma mismatch_not_listed_refuted :
   exists w fm i t feat,
@@ -1018,7 +1020,7 @@ Proof.
   split; [vm_compute; left; reflexivity|].
   split; [vm_compute; reflexivity|].
   assert (Hno : forall rb t, 
-             In (rb, Some t) [(mk_rb 0 (mkFile (Some [97; 97]) [0] []
+             In (rb, Some t) [(mk_rb 0 (mkF (Some [97; 97]) [0] []
                                   [mkBasin 0 KHttp 0 [Here 1%nat] None])
                                   [0] (mkBasin 0 KHttp 0 [Here 1%nat] None)
                                   (Some 1%nat),
@@ -1037,9 +1039,9 @@ Qed.
 (* ------------------------------------------------ non-vacuity examples *)
 (* a 3-cycle a -> b -> c -> a of file basins, all of one measurement *)
 Definition w_cycle : world :=
-  [mkFile (Some [97]) [0] [] [mkBasin 0 KFile 0 [Here 1%nat] None];
-   mkFile (Some [97]) [1] [] [mkBasin 1 KFile 0 [Rel 2%nat] None];
-   mkFile (Some [97]) [2] [] [mkBasin 2 KFile 0 [Here 0%nat] None]].
+  [mkF (Some [97]) [0] [] [mkBasin 0 KFile 0 [Here 1%nat] None];
+   mkF (Some [97]) [1] [] [mkBasin 1 KFile 0 [Rel 2%nat] None];
+   mkF (Some [97]) [2] [] [mkBasin 2 KFile 0 [Here 0%nat] None]].
 
 Example ex_terminates_cycle :
   exists t, build w_cycle (fuel_for w_cycle) FHdf5 0 [] = Some t
@@ -1054,13 +1056,13 @@ Proof. eexists. repeat split; vm_compute; reflexivity. Qed.
    kinds file, remote+hdf5 and internal+hdf5, and at a served file whose own
    file basin points at a local file *)
 Definition w_remote : world :=
-  [mkFile (Some [97]) [0] []
+  [mkF (Some [97]) [0] []
           [mkBasin 0 KFile 0 [Here 1%nat] None;
            mkBasin 1 KRemoteHdf5 0 [Here 1%nat] None;
            mkBasin 2 KInternalHdf5 0 [Here 1%nat] None;
            mkBasin 3 KHttp 0 [Here 2%nat] None];
-   mkFile (Some [97]) [1] [] [];
-   mkFile (Some [97]) [2] [] [mkBasin 4 KFile 0 [Here 1%nat] None]].
+   mkF (Some [97]) [1] [] [];
+   mkF (Some [97]) [2] [] [mkBasin 4 KFile 0 [Here 1%nat] None]].
 
 Example ex_remote_isolated :
   exists t, build w_remote (fuel_for w_remote) FHttp 0 [] = Some t
@@ -1079,15 +1081,15 @@ Proof. eexists. repeat split; vm_compute; reflexivity. Qed.
 
 (* identifiers: equal, prefix (mapped), unrelated, absent; a dangling basin *)
 Definition w_ids : world :=
-  [mkFile (Some [97; 97; 98]) [0] []
+  [mkF (Some [97; 97; 98]) [0] []
           [mkBasin 0 KFile 0 [Here 1%nat] None;          (* equal *)
            mkBasin 1 KFile 1 [Here 2%nat] None;          (* prefix, mapped *)
            mkBasin 2 KFile 0 [Here 2%nat] None;          (* prefix, same *)
            mkBasin 3 KFile 0 [Here 3%nat] None;          (* no identifier *)
            mkBasin 4 KFile 0 [Nowhere] (Some [5])];      (* dangling *)
-   mkFile (Some [97; 97; 98]) [1] [] [];
-   mkFile (Some [97; 97]) [2] [] [];
-   mkFile None [3] [] []].
+   mkF (Some [97; 97; 98]) [1] [] [];
+   mkF (Some [97; 97]) [2] [] [];
+   mkF None [3] [] []].
 
 Example ex_identifiers :
   exists t, build w_ids (fuel_for w_ids) FHdf5 0 [] = Some t
@@ -1327,8 +1329,8 @@ Qed.
 (* a definition that declares [1; 2; 5] on a file holding 1, 2 and 3:
    3 is not offered, 5 is listed (declared) but cannot be read *)
 Definition w_declared : world :=
-  [mkFile (Some [97]) [0] [] [mkBasin 0 KFile 0 [Here 1%nat] (Some [1; 2; 5])];
-   mkFile (Some [97]) [1; 2; 3] [] []].
+  [mkF (Some [97]) [0] [] [mkBasin 0 KFile 0 [Here 1%nat] (Some [1; 2; 5])];
+   mkF (Some [97]) [1; 2; 3] [] []].
 
 Example ex_declared :
   exists t, build w_declared (fuel_for w_declared) FHdf5 0 [] = Some t
@@ -1336,4 +1338,247 @@ Example ex_declared :
             /\ tget w_declared t 1 = Some 1
             /\ tget w_declared t 3 = None
             /\ tget w_declared t 5 = None.
+Proof. eexists. repeat split; vm_compute; reflexivity. Qed.
+
+(* ================================================================== *)
+(* Audit round: the property text without the code's exception for     *)
+(* referrers that have no identifier; positive directions; subtrees.   *)
+
+(* "belongs to the same measurement" by the text: both identifiers absent,
+   or both present and equal / prefix *)
+Definition StrictMatches (w : world) (rb : rbasin) : Prop :=
+  exists j, rb_tgt rb = Some j /\
+    match rb_ref rb, rid_of w j with
+    | None, None => True
+    | Some r, Some c =>
+        (b_map (rb_b rb) = 0 -> r = c)
+        /\ (b_map (rb_b rb) <> 0 -> exists rest, r = c ++ rest)
+    | _, _ => False
+    end.
+
+(* guard: no followed basin has an identifier while its referrer has none *)
+Definition idless_ok (w : world) (rb : rbasin) : bool :=
+  match rb_ref rb with
+  | Some _ => true
+  | None => match rb_tgt rb with
+            | Some j => match rid_of w j with None => true | Some _ => false end
+            | None => true
+            end
+  end.
+
+Definition referrers_identified (w : world) (t : tree) : bool :=
+  forallb (idless_ok w) (tree_edges t).
+
+Lemma matches_strict : forall w rb,
+    Matches w rb -> idless_ok w rb = true -> StrictMatches w rb.
+Proof.
+  intros w rb [j [Ht Hm]] Hg. exists j. split; [exact Ht|].
+  unfold idless_ok in Hg. rewrite Ht in Hg.
+  destruct (rb_ref rb) as [r|].
+  - destruct Hm as [c [Hc Hrest]]. rewrite Hc. exact Hrest.
+  - destruct (rid_of w j); [discriminate | exact I].
+Qed.
+
+Inductive StrictSrc (w : world) : tree -> Z -> Z -> Prop :=
+| ss_here : forall fm i pr kids feat,
+    In feat (innate_of w i) ->
+    StrictSrc w (Tree fm i pr kids) feat (Z.of_nat i)
+| ss_internal : forall fm i pr kids rb feat,
+    In (rb, None) (kids_list kids) -> rb_class rb = CInternal ->
+    In feat (leaf_feats rb) ->
+    StrictSrc w (Tree fm i pr kids) feat (100 + Z.of_nat i)
+| ss_step : forall fm i pr kids rb t feat s,
+    In (rb, Some t) (kids_list kids) -> StrictMatches w rb ->
+    StrictSrc w t feat s ->
+    StrictSrc w (Tree fm i pr kids) feat s.
+
+Lemma goodsrc_strict : forall w t feat s,
+    GoodSrc w t feat s ->
+    (forall rb, In rb (tree_edges t) -> idless_ok w rb = true) ->
+    StrictSrc w t feat s.
+Proof.
+  intros w t feat s H. induction H as
+      [fm i pr kids feat Hin
+      |fm i pr kids rb feat Hin Hc Hf
+      |fm i pr kids rb t feat s Hin Hm Hg IH]; intros Hgd.
+  - apply ss_here; exact Hin.
+  - eapply ss_internal; eauto.
+  - destruct (kids_list_edges _ _ _ Hin) as [H1 H2].
+    refine (ss_step w fm i pr kids rb t feat s Hin _ _).
+    + apply matches_strict; [exact Hm|]. apply Hgd. exact H1.
+    + apply IH. intros rb' Hin'. apply Hgd. cbn [tree_edges].
+      eapply H2; eauto.
+Qed.
+
+(* served data come from the same measurement in the sense of the text,
+   provided no followed basin carries an identifier its referrer lacks *)
+Lemma same_measurement_served_partial : forall w fuel fm i ign t feat s,
+    build w fuel fm i ign = Some t ->
+    referrers_identified w t = true ->
+    tget w t feat = Some s -> StrictSrc w t feat s.
+Proof.
+  intros w fuel fm i ign t feat s Hb Hg Hget.
+  apply goodsrc_strict; [eapply served_only_matching; eauto|].
+  unfold referrers_identified in Hg. rewrite forallb_forall in Hg. exact Hg.
+Qed.
+
+(* without the guard it is false (finding C14-idless-referrer-unchecked):
+   a root without identifier, a file basin with run identifier "b" *)
+Definition w_idless : world :=
+  [mkF None [0] [] [mkBasin 0 KFile 0 [Here 1%nat] None];
+   mkF (Some [98]) [1] [] []].
+
+Lemma StrictSrc_inv : forall w fm i pr kids feat s,
+    StrictSrc w (Tree fm i pr kids) feat s ->
+    In feat (innate_of w i)
+    \/ (exists rb, In (rb, None) (kids_list kids) /\ rb_class rb = CInternal)
+    \/ (exists rb t, In (rb, Some t) (kids_list kids) /\ StrictMatches w rb).
+Proof.
+  intros w fm i pr kids feat s H. inversion H; subst; eauto 6.
+Qed.
+
+Lemma same_measurement_served_refuted :
+  exists w fm i t feat s,
+    build w (fuel_for w) fm i [] = Some t
+    /\ tget w t feat = Some s /\ ~ StrictSrc w t feat s.
+Proof.
+  exists w_idless, FHdf5, 0%nat. eexists. exists 1, 1.
+  split; [vm_compute; reflexivity|].
+  split; [vm_compute; reflexivity|].
+  intros H. apply StrictSrc_inv in H.
+  destruct H as [H | [[rb [Hin _]] | [rb [t [Hin [j [Ht Hm]]]]]]].
+  - cbn in H. destruct H as [H|[]]. discriminate.
+  - cbn in Hin. destruct Hin as [Hin|[]]. discriminate.
+  - cbn in Hin. destruct Hin as [Hin|[]]. inversion Hin; subst rb t.
+    cbn in Ht. inversion Ht; subst j. cbn in Hm. exact Hm.
+Qed.
+
+(* -------------------------------------------------- positive directions *)
+Lemma ffb_adds : forall w f acc rb ot feat,
+    In (rb, ot) (kids_list f) -> rb_avail rb = true ->
+    In feat (match ot with
+             | None => leaf_feats rb
+             | Some t => node_feats w rb t
+             end) ->
+    In feat (ffb w f acc).
+Proof.
+  intros w f; induction f as [|rb0 rest IH|rb0 t0 rest IH] using forest_ind;
+    intros acc rb ot feat Hin Hav Hf.
+  - destruct Hin.
+  - rewrite ffb_leaf. cbn [kids_list] in Hin. destruct Hin as [Hin|Hin].
+    + inversion Hin; subst. apply ffb_keeps. apply fb_step_adds; assumption.
+    + eapply IH; eauto.
+  - rewrite ffb_node. cbn [kids_list] in Hin. destruct Hin as [Hin|Hin].
+    + inversion Hin; subst. apply ffb_keeps. apply fb_step_adds; assumption.
+    + eapply IH; eauto.
+Qed.
+
+(* every feature of an available basin of a dataset is listed by it *)
+Lemma available_basin_features_listed : forall w t rb ot feat,
+    In (rb, ot) (kids_list (tree_kids t)) -> rb_avail rb = true ->
+    In feat (match ot with
+             | None => leaf_feats rb
+             | Some t' => node_feats w rb t'
+             end) ->
+    In feat (tfb w t).
+Proof.
+  intros w [fm i pr kids] rb ot feat Hin Hav Hf. cbn [tree_kids] in Hin.
+  rewrite tfb_eq. apply sortdedup_In. eapply ffb_adds; eauto.
+Qed.
+
+Lemma fget_complete : forall w f rb t feat s,
+    In (rb, Some t) (kids_list f) -> verify w rb = true ->
+    In feat (node_feats w rb t) -> tget w t feat = Some s ->
+    fget w f None feat <> None.
+Proof.
+  intros w f; induction f as [|rb0 rest IH|rb0 t0 rest IH] using forest_ind;
+    intros rb t feat s Hin Hv Hf Hg.
+  - destruct Hin.
+  - rewrite fget_leaf. cbn [kids_list] in Hin.
+    destruct Hin as [Hin|Hin]; [discriminate|].
+    destruct (pass_ok None rb0 && memz feat (leaf_feats rb0) && verify w rb0
+              && is_internal rb0); [discriminate | eapply IH; eauto].
+  - rewrite fget_node. cbn [kids_list] in Hin. destruct Hin as [Hin|Hin].
+    + inversion Hin; subst. cbn [pass_ok andb].
+      apply memz_In in Hf. rewrite Hf, Hv, Hg. cbn. discriminate.
+    + destruct (pass_ok None rb0 && memz feat (node_feats w rb0 t0)
+                && verify w rb0).
+      * destruct (tget w t0 feat); [discriminate | eapply IH; eauto].
+      * eapply IH; eauto.
+Qed.
+
+(* a feature that a verified basin of the dataset can deliver is delivered
+   (by that basin or by one of higher priority) *)
+Lemma matching_basin_served : forall w t rb t' feat s',
+    In (rb, Some t') (kids_list (tree_kids t)) -> verify w rb = true ->
+    In feat (node_feats w rb t') -> tget w t' feat = Some s' ->
+    exists s, tget w t feat = Some s.
+Proof.
+  intros w [fm i pr kids] rb t' feat s' Hin Hv Hf Hg.
+  cbn [tree_kids] in Hin. rewrite tget_eq.
+  destruct (memz feat (innate_of w i)); [eexists; reflexivity|].
+  destruct (fget w kids (Some TInternal) feat); [eexists; reflexivity|].
+  destruct (fget w kids (Some TFile) feat); [eexists; reflexivity|].
+  pose proof (fget_complete w kids rb t' feat s' Hin Hv Hf Hg) as Hne.
+  destruct (fget w kids None feat); [eexists; reflexivity | congruence].
+Qed.
+
+(* ------------------------------------------------ every nested dataset *)
+Fixpoint subtrees (t : tree) : list tree :=
+  t :: match t with Tree _ _ _ kids => fsubtrees kids end
+with fsubtrees (f : forest) : list tree :=
+  match f with
+  | FNil => []
+  | FLeaf _ rest => fsubtrees rest
+  | FNode _ t rest => subtrees t ++ fsubtrees rest
+  end.
+
+Lemma inv_subtrees : forall w,
+    (forall t, inv w t -> Forall (inv w) (subtrees t))
+    /\ (forall f fm i, finv w fm i f -> Forall (inv w) (fsubtrees f)).
+Proof.
+  intros w. apply tree_forest_ind.
+  - intros fm i pr kids IH Hi. cbn [subtrees]. constructor; [exact Hi|].
+    destruct Hi as [_ Hk]. eapply IH; eauto.
+  - intros fm i _. constructor.
+  - intros rb rest IH fm i [_ [_ Hrest]]. cbn [fsubtrees]. eapply IH; eauto.
+  - intros rb t IHt rest IHr fm i [_ [_ [Hi Hrest]]]. cbn [fsubtrees].
+    apply Forall_app. split; [apply IHt; exact Hi | eapply IHr; eauto].
+Qed.
+
+(* Whatever the root: below every dataset that is accessed through a network
+   format (e.g. an http basin of a file opened from disk) nothing is opened
+   by local path and no local basin class is instantiated. *)
+Lemma no_local_below_remote : forall w fuel fm i ign t,
+    build w fuel fm i ign = Some t ->
+    Forall (fun t' => local_allowed (tree_fmt t') = false ->
+                      ttouched t' = []
+                      /\ Forall (fun rb => class_type (rb_class rb) <> TFile)
+                                (tree_edges t'))
+           (subtrees t).
+Proof.
+  intros w fuel fm i ign t Hb.
+  pose proof (build_inv _ _ _ _ _ _ Hb) as Hi.
+  destruct (inv_subtrees w) as [Hs _]. specialize (Hs t Hi).
+  eapply Forall_impl; [|exact Hs].
+  intros t' Hi' Hl. destruct (nonlocal_isolated_aux w) as [H _].
+  destruct (H t' Hi' Hl) as [Ht He]. split; [exact Ht|].
+  eapply Forall_impl; [|exact He].
+  intros rb Hc. cbv beta in Hc. destruct (rb_class rb); cbn [class_type];
+    try discriminate. exfalso; apply Hc; reflexivity.
+Qed.
+
+(* file opened from disk -> http basin -> file and remote+hdf5 definitions *)
+Definition w_nested : world :=
+  [mkF (Some [97]) [0] [] [mkBasin 0 KHttp 0 [Here 1%nat] None];
+   mkF (Some [97]) [1] []
+          [mkBasin 1 KFile 0 [Here 2%nat] None;
+           mkBasin 2 KRemoteHdf5 0 [Here 2%nat] None];
+   mkF (Some [97]) [2] [] []].
+
+Example ex_nested :
+  exists t, build w_nested (fuel_for w_nested) FHdf5 0 [] = Some t
+            /\ length (subtrees t) = 2%nat
+            /\ ttouched t = [0%nat]
+            /\ tget w_nested t 1 = Some 1 /\ tget w_nested t 2 = None.
 Proof. eexists. repeat split; vm_compute; reflexivity. Qed.
